@@ -6,6 +6,8 @@ package main
 // Keys are term IDs of the worker's term table; the cache is dropped when the table is renewed.
 
 import (
+	"fmt"
+	"os"
 	"sort"
 	"strconv"
 	"strings"
@@ -74,4 +76,42 @@ func (w *World) qcPut(key string, res SatResult, m Model) {
 		return
 	}
 	w.qc().m[key] = qcEnt{res, m}
+}
+
+// Fork statistics (development aid): SYMGO_FORKSTAT=1 prints the conditions that forked most often.
+var (
+	forkStatOn = os.Getenv("SYMGO_FORKSTAT") != ""
+	forkStatMu sync.Mutex
+	forkStat   = map[string]int{}
+)
+
+func noteFork(c *Term) {
+	if !forkStatOn {
+		return
+	}
+	s := TermString(c, 3)
+	forkStatMu.Lock()
+	forkStat[s]++
+	forkStatMu.Unlock()
+}
+
+func printForkStat() {
+	if !forkStatOn {
+		return
+	}
+	type kv struct {
+		k string
+		v int
+	}
+	var all []kv
+	for k, v := range forkStat {
+		all = append(all, kv{k, v})
+	}
+	sort.Slice(all, func(i, j int) bool { return all[i].v > all[j].v })
+	for i, e := range all {
+		if i >= 25 {
+			break
+		}
+		fmt.Fprintf(os.Stderr, "FORK %6d  %s\n", e.v, e.k)
+	}
 }
